@@ -59,6 +59,10 @@ Theorem C11_window_items : forall (xs : list N) (w i : nat),
   length (sub xs i w) = w /\ forall j, j < w -> nth j (sub xs i w) 0%N = nth (i + j) xs 0%N.
 Proof. exact windows_items. Qed.
 
+Theorem C11_consecutive_windows_overlap : forall (xs : list N) (w i : nat),
+  skipn 1 (sub xs i w) = firstn (w - 1) (sub xs (i + 1) w).
+Proof. exact windows_overlap. Qed.
+
 Example C11_counts_example : (5 + 1 - 2 = 4) /\ (5 / 2 = 2) /\ (5 + 1 - 7 = 0).
 Proof. repeat split. Qed.
 
@@ -76,3 +80,4 @@ Print Assumptions C11_chunks_count.
 Print Assumptions C11_chain.
 Print Assumptions C11_chunks_partition_the_prefix.
 Print Assumptions C11_window_items.
+Print Assumptions C11_consecutive_windows_overlap.
